@@ -89,7 +89,7 @@ Event ==
            ELSE IF ms.phase = "proof" /\ [k \in 1..Len(tc) |-> ImgT(tc[k], sx.sy)] # Reverse(ms.claims) THEN "claims"
            ELSE ""
          reason == IF clause = "machine-rejects" THEN Reason(mst, e.bytes, m0)
-                   ELSE IF clause \in {"top", "stack-length"} /\ ret > 0 THEN "retained-entry-consumed" ELSE "-"
+                   ELSE IF clause \in {"top", "stack-length", "memory", "claims"} /\ ret > 0 THEN "retained-entry-consumed" ELSE "-"
      IN /\ IF clause = "" THEN TRUE ELSE PrintT(<<"FAIL", tid, l, clause, reason>>)
         /\ mst' = ms /\ ret' = ret2 /\ syms' = sx.sy
         /\ dead' = (e.out = "ok" /\ ~m0.ok)
